@@ -577,7 +577,119 @@ def run(rep):
         handle_models(rep, res, meta)
     maxdepth1(rep)
     rep.end_kernel()
+    rep.kernel('K-combine', functions=['AegeanTools/MIMAS.py:combine_regions', F + ':Region.add_circles', F + ':Region.add_poly', F + ':Region.without'],
+               bounds='depth 1-2 universes (thorough: one specification at depth 3, where renormalisation forks); up to two circles / polygons of each kind; every HEALPix query result an arbitrary symbolic pixel set',
+               stubs=['healpy.query_disc / query_polygon -> fresh symbolic pixel sets (their geometry is C09)'])
+    reg2, mim2 = sym_mimas()
+    specs = [('+c', '-c', '+p', '-p'), ('+c', '-c', '-c', '+p', '-p', '-p'), ('+c', '+c', '-c', '+p', '+p', '-p'), ('+p', '-c'), ('+c', '-p')]
+    cdone = False
+    for D in ((1, 2, 3) if thorough else (1, 2)):
+        for spec in (specs if D < 3 else specs[:1]):
+            st, res = explore(h_combine(reg2, mim2, D, spec), wall_s=(600 if D == 3 else 120), workers=(16 if D == 3 else 1))
+            rep.stats(st)
+            for r in res:
+                for ob in r['obligations']:
+                    rep.count(ob['result'], ob['name'])
+                    if ob['result'] == 'sat' and not cdone:
+                        bad, cls, detail = combine_oracle()
+                        if rep.finding('C08/K-combine/%s' % (cls or ob['name'].split(':')[-1]), dict(kind='combine'), detail or ob['name'], reproduced=bad) != 'not-reproduced':
+                            cdone = True
+    bad, cls, detail = combine_oracle()
+    rep.validated_runs(2)
+    if bad:
+        rep.finding('C08/K-combine/%s' % cls, dict(kind='combine'), detail)
+    rep.end_kernel()
     rep.not_decided += ['pickle save/load round trip (library code; replay oracle only)', 'random histories to length 12 at depth 10 (covered by the inductive step, not enumerated)']
+
+
+def sym_mimas():
+    mods = loader.load_private(['regions', 'MIMAS'])
+    reg, mim = mods['regions'], mods['MIMAS']
+    loader.patch(reg, np=False, builtins=False)
+    loader.patch(mim, np=False, builtins=False)
+    for k, v in symset.BUILTINS.items():
+        setattr(reg, k, v)
+    mim.Region = reg.Region
+    return reg, mim
+
+
+def h_combine(reg, mim, D, spec):
+    """the real MIMAS.combine_regions: every HEALPix query answers with a fresh symbolic pixel set; the result must be the
+    documented construction order  ((+circles) - (-circles)) + (+polygons)) - (-polygons)  as set algebra"""
+    def h(c):
+        uni = universe(D)
+        calls = []
+
+        class HP(HPStub):
+            def _fresh(self, kind):
+                st = SymSet.fresh(uni[D], 'q%d' % len(calls))
+                calls.append((kind, st))
+                return st
+
+            def query_disc(self, nside, vec, radius, inclusive=False, nest=False, **kw):
+                return self._fresh('disc')
+
+            def query_polygon(self, nside, vertices, inclusive=False, nest=False, **kw):
+                return self._fresh('poly')
+        reg.hp = HP()
+        cont = mim.Dummy(maxdepth=D)
+        order = []
+        for kind in spec:
+            if kind == '+c':
+                cont.include_circles.append([10.0 + len(order), -20.0, 1.0])
+            elif kind == '-c':
+                cont.exclude_circles.append([10.5 + len(order), -20.0, 0.5])
+            elif kind == '+p':
+                cont.include_polygons.append([10.0, -21.0, 12.0 + len(order), -21.0, 11.0, -19.0])
+            elif kind == '-p':
+                cont.exclude_polygons.append([10.2, -20.8, 11.0 + len(order), -20.8, 10.6, -20.0])
+            order.append(kind)
+        r = mim.combine_regions(cont)
+        tag = 'combine_regions[D=%d,%s]' % (D, ' '.join(spec))
+        # queries are issued in the documented order: all +c, all -c, all +p, all -p
+        seq = [k for k in ('+c', '-c', '+p', '-p') for _ in range(spec.count(k))]
+        kinds = ['disc' if k.endswith('c') else 'poly' for k in seq]
+        c.oblige(tag + ':one HEALPix query per circle / polygon, in the documented order', z3.BoolVal([k for k, _ in calls] == kinds))
+        if [k for k, _ in calls] != kinds:
+            return tag
+        want = {u: FALSE for u in uni[D]}
+        for k, (_, st) in zip(seq, calls):
+            for u in want:
+                b = st.bits.get(u, FALSE)
+                want[u] = z3.Or(want[u], b) if k.startswith('+') else z3.And(want[u], z3.Not(b))
+        got = alpha(r, uni)
+        c.oblige(tag + ':region == ((+circles - -circles) + +polygons) - -polygons as pixel sets', z3.And([got[u] == want[u] for u in want]))
+        return tag
+    return h
+
+
+def combine_oracle():
+    """real combine_regions against python sets of healpy query results, documented order"""
+    import healpy as hp
+    import numpy as np
+    mim = loader.real('MIMAS')
+    D = 6
+    for spec in ((('+c', (20.0, -30.0, 6.0)), ('-c', (22.0, -30.0, 3.0)), ('+p', (21.0, -32.0, 25.0, -32.0, 25.0, -28.0, 21.0, -28.0)), ('-p', (60.0, 10.0, 62.0, 10.0, 61.0, 12.0))),
+                 (('+c', (20.0, -30.0, 6.0)), ('-c', (22.0, -30.0, 3.0)), ('-c', (18.0, -29.0, 1.0)), ('+p', (21.0, -32.0, 25.0, -32.0, 25.0, -28.0, 21.0, -28.0)), ('-p', (23.5, -30.5, 24.5, -30.5, 24.0, -29.5)), ('-p', (60.0, 10.0, 62.0, 10.0, 61.0, 12.0)))):
+        cont = mim.Dummy(maxdepth=D)
+        want = set()
+        for k in ('+c', '-c', '+p', '-p'):
+            for kind, v in spec:
+                if kind != k:
+                    continue
+                if k.endswith('c'):
+                    (cont.include_circles if k == '+c' else cont.exclude_circles).append(list(v))
+                    px = set(int(x) for x in hp.query_disc(2 ** D, hp.ang2vec(np.radians(90 - v[1]), np.radians(v[0])), np.radians(v[2]), inclusive=True, nest=True))
+                else:
+                    (cont.include_polygons if k == '+p' else cont.exclude_polygons).append(list(v))
+                    pts = np.array(v).reshape(-1, 2)
+                    px = set(int(x) for x in hp.query_polygon(2 ** D, hp.ang2vec(np.radians(90 - pts[:, 1]), np.radians(pts[:, 0])), inclusive=True, nest=True))
+                want = (want | px) if k.startswith('+') else (want - px)
+        r = mim.combine_regions(cont)
+        got = set(int(x) for x in r.get_demoted())
+        if got != want:
+            return True, 'combine-order', 'combine_regions(%s): %d pixels, the documented construction order gives %d (%d missing, %d extra)' % ([k for k, _ in spec], len(got), len(want), len(want - got), len(got - want))
+    return False, None, None
 
 
 def membership_kernel(rep, pid):
@@ -632,6 +744,9 @@ def membership_kernel(rep, pid):
 
 
 def replay(w):
+    if w['witness'].get('kind') == 'combine':
+        bad, cls, detail = combine_oracle()
+        return bad, '%s: %s' % (cls, detail)
     bad, cls, detail = replay_case(w['witness'])
     return bad, '%s: %s' % (cls, detail)
 
